@@ -150,8 +150,6 @@ static void build_platform(sg4::Engine& e, const json& p)
     if (h.contains("props"))
       for (auto const& [k, v] : h["props"].items())
         host->set_property(k, v.get<std::string>());
-    if (h.contains("pstate"))
-      host->set_pstate(h["pstate"].get<int>());
     if (h.contains("speed_profile"))
       host->set_speed_profile(make_profile(h["name"].get<std::string>() + "_speed", h["speed_profile"]));
     if (h.contains("state_profile"))
@@ -165,6 +163,8 @@ static void build_platform(sg4::Engine& e, const json& p)
         disk->seal();
       }
     host->seal();
+    if (h.contains("pstate")) // after seal(), like the XML loader does (the CPU constraint must exist)
+      host->set_pstate(h["pstate"].get<int>());
   }
   if (p.contains("links"))
     for (auto const& l : p["links"]) {
